@@ -65,6 +65,19 @@ func c12Pattern(n int, seed uint32) []byte {
 	return b
 }
 
+// c12CachedPattern keeps the last generated long argument (boundary cases come in runs
+// of the same length).
+var c12PatLen int
+var c12PatBuf []byte
+
+func c12CachedPattern(n int) []byte {
+	if c12PatLen != n || c12PatBuf == nil {
+		c12PatBuf, c12PatLen = nil, n
+		c12PatBuf = c12Pattern(n, uint32(n))
+	}
+	return c12PatBuf
+}
+
 func c12InitAlpha(withHuge bool) {
 	c12Alpha = [][]byte{
 		[]byte(""), []byte("a"), []byte("\r\n"), []byte("$3\r\n"), []byte("*1\r\n"), {0}, {0xff},
@@ -105,11 +118,14 @@ type c12Cmd struct {
 }
 
 func (s *c12Scn) commands() []c12Cmd {
+	// a generated command is followed by two short ones, so that an offset error that starts
+	// at the large command shows on the later commands too
+	tail := []c12Cmd{{name: "SET", args: [][]byte{[]byte("t1"), []byte("v\r\n")}}, {name: "Incr", args: [][]byte{[]byte("t2")}}}
 	if s.Count > 0 {
-		return []c12Cmd{c12ManyArgs(s.Count)}
+		return append([]c12Cmd{c12ManyArgs(s.Count)}, tail...)
 	}
 	if s.BulkLen > 0 {
-		return []c12Cmd{{name: "SET", args: [][]byte{[]byte("k"), c12Pattern(s.BulkLen, uint32(s.BulkLen))}}}
+		return append([]c12Cmd{{name: "SET", args: [][]byte{[]byte("k"), c12CachedPattern(s.BulkLen)}}}, tail...)
 	}
 	out := make([]c12Cmd, len(s.Cmds))
 	for i, c := range s.Cmds {
@@ -208,9 +224,13 @@ func refParse(p []byte) ([][]byte, int, error) {
 // stream builds the source byte stream, the stream position after each command's
 // last byte, and the token boundaries (used to pick split points for long streams).
 func (s *c12Scn) stream(cmds []c12Cmd) (data []byte, ends []int64, bounds []int) {
-	if s.Count > 0 || s.BulkLen > 0 { // one generated command, explicit fragmentations only
-		data = refEncode(make([]byte, 0, 16*s.Count+s.BulkLen+64), cmds[0])
-		return data, []int64{int64(len(data))}, nil
+	if s.Count > 0 || s.BulkLen > 0 { // generated command + two short ones, explicit fragmentations only
+		data = make([]byte, 0, 16*s.Count+s.BulkLen+128)
+		for _, c := range cmds {
+			data = refEncode(data, c)
+			ends = append(ends, int64(len(data)))
+		}
+		return data, ends, nil
 	}
 	for i, c := range cmds {
 		for k := 0; k < s.HB[i]; k++ {
@@ -645,6 +665,14 @@ func c12RunDecode(s c12Scn, pairs bool) (mc.Result, *c12Scn, int) {
 		v.Frag, v.Cuts = frag, cuts
 		return *r, &v, runs
 	}
+	if s.Frag == "mid" { // read boundaries at the middle and before the last byte
+		s.Cuts = []int{len(data) / 2, len(data) - 1}
+	} else if s.Frag == "pages" { // a read boundary every 4093 bytes
+		s.Cuts = nil
+		for p := 4093; p < len(data); p += 4093 {
+			s.Cuts = append(s.Cuts, p)
+		}
+	}
 	if s.Frag != "" { // one given fragmentation (replay, boundary families)
 		po := &obs
 		if s.Count > 0 || s.BulkLen > 0 {
@@ -652,6 +680,9 @@ func c12RunDecode(s c12Scn, pairs bool) (mc.Result, *c12Scn, int) {
 			obs = []string{s.Path, strconv.Itoa(s.Count), strconv.Itoa(s.BulkLen), strconv.Itoa(s.Buf), s.Frag, fmt.Sprint(s.Cuts)}
 		}
 		if r := one(s.Frag, s.Cuts, po); r != nil {
+			if s.Frag == "mid" || s.Frag == "pages" {
+				return fail(r, s.Frag, nil) // the name alone identifies the fragmentation
+			}
 			return fail(r, s.Frag, s.Cuts)
 		}
 		return mc.OK(mc.Hash(obs...), s.nontrivial(), runs), nil, runs
@@ -744,7 +775,9 @@ func runC12(rep *mc.Reporter) {
 				}
 			}
 		}
-		if s.Path == "parse" {
+		if s.Path == "resume" {
+			rep.Exec(s, nil, c12RunResume(s))
+		} else if s.Path == "parse" {
 			res, _ := c12RunParse(s)
 			rep.Exec(s, nil, res)
 		} else if s.Path == "encode-typed" {
